@@ -96,6 +96,23 @@ fn run(r: &mut Run) -> Result<(), MachineryError> {
             }
         }
     })?;
+    // whole-word sequences: several hyphenated words in one paragraph (the symbol space spends its
+    // depth on separators: two hyphenated words and a third word are 9 symbols)
+    let words = [WD1, WD2, WD3, WDH, WD5];
+    let nw = t.pick(6, 8);
+    let gw = Gamma { seps: seps(), algs: algs_default(), spls: vec![Spl::None, Spl::Hyphen], bws: vec![true, false], indents: vec![("", "")], crlf: vec![false] };
+    let basesw = gw.bases();
+    let space = Space { name: "C14/word-sequences".into(), menu: menu(&words), max_len: nw, desc: format!("<= {} whole words from the menu joined by single spaces; {}; widths 1..=9", nw, gw.describe()) };
+    r.space(space, |seq, cx| {
+        let mut text = build(seq, &words);
+        text.pop();
+        cx.set_input(&text);
+        for base in &basesw {
+            for w in 1..=9usize {
+                check_idempotent(&text, &Cfg { width: w, ..*base }, cx);
+            }
+        }
+    })?;
     // texts with stray ESC characters (not well-formed): the statement's "for all texts" with the
     // ASCII separator and first-fit needs no precondition, so these can be judged too
     let raw = [L, LLL, SP, ESC, LBR, LM];
